@@ -181,7 +181,7 @@ class InterpNDSemi(object):
         if self._compute_d_dvalues:
             derivs_val = np.zeros((n_nodes, len(self.values)), dtype=xi.dtype)
 
-        if self.extrapolated_points is None:
+        if self.extrapolated_points is None or len(self.extrapolated_points) != n_nodes:
             self.extrapolated_points = np.zeros(n_nodes, dtype=bool)
 
         # Loop over n_nodes because there isn't a way to vectorize.
